@@ -296,6 +296,82 @@ class Interp:
         return self._exec_function(fi, bound, self_val, closure, owner)
 
     _SIGNATURES = None
+    _FIELDS = None
+
+    def _new_optional(self, fi, names):
+        """the parameters among `names` that the pinned signature of fi does not have and that have a default"""
+        if Interp._SIGNATURES is None:
+            self.symbolic_args(fi)
+        known = Interp._SIGNATURES.get(fi.qualname.split("#")[0])
+        if known is None or not getattr(self, "pin_defaults", True):
+            return []
+        d = fi.defaults()
+        return [p for p in names if p not in known and p in d]
+
+    _EQ_MEMO = None
+
+    def _explicit_equals_default(self, fi, bound, extras, self_val):
+        """Does fi, given `bound`, compute on every trace partition what it computes with `extras` left at their
+        defaults?  Both are interpreted (the callee inlined, everything else as in this interpreter) and compared."""
+        try:
+            key = (id(self.P), fi.qualname, tuple(sorted(extras)), tuple((k, nf.key(self.to_nf(v))) for k, v in sorted(bound.items())), self.array_mode)
+        except (AnalysisError, TypeError):
+            return False
+        memo = Interp._EQ_MEMO if Interp._EQ_MEMO is not None else {}
+        Interp._EQ_MEMO = memo
+        if key in memo:
+            return memo[key]
+        memo[key] = False  # a recursive question is answered conservatively
+
+        def sig(args):
+            sub = Interp(
+                self.P, opaque=self.opaque - {fi.qualname}, policy=self.policy, array_mode=self.array_mode, opaque_methods=self.opaque_methods,
+                attr_as_key=self.attr_as_key, keep_ext=self.keep_ext, stubs=self.stubs, erase_masks=self.erase_masks,
+            )
+            out = []
+            for pth in sub.run_function(fi.qualname, args=args, self_val=self_val):
+                v = pth.value
+                out.append((tuple((k, c) for k, c, _d in pth.decisions), pth.outcome, pth.exc, nf.key(sub.to_nf(v)) if v is not None and pth.outcome == "return" else None))
+            return sorted(out, key=repr)
+
+        try:
+            a = sig(dict(bound))
+            b = sig({k: v for k, v in bound.items() if k not in extras})
+            ok = a == b
+        except (AnalysisError, nf.NFError, PathLimit):
+            ok = False
+        memo[key] = ok
+        return ok
+
+    def _new_field_default(self, cls, attr):
+        """A dataclass field with a default which the pinned field list of its class (signatures_pos.json,
+        `<Class>.<fields>`) does not have is read at its default: existing users cannot have set it."""
+        if not getattr(self, "pin_defaults", True):
+            return None
+        if Interp._FIELDS is None:
+            import json as _json
+
+            path = os.path.join(os.path.dirname(os.path.abspath(__file__)), "signatures_pos.json")
+            Interp._FIELDS = _json.load(open(path)) if os.path.exists(path) else {}
+        for c in cls.mro():
+            if attr not in c.fields:
+                continue
+            known = Interp._FIELDS.get(f"{c.qualname}.<fields>")
+            if known is None or attr in known or attr not in c.class_attrs:
+                return None
+            d = c.class_attrs[attr]
+            if isinstance(d, ast.Call) and ast.unparse(d.func).split(".")[-1] == "field":
+                kw = {k.arg: k.value for k in d.keywords if k.arg}
+                if "default" in kw:
+                    d = kw["default"]
+                elif "default_factory" in kw:
+                    d = ast.Call(func=kw["default_factory"], args=[], keywords=[])
+                    ast.copy_location(d, kw["default_factory"])
+                    ast.fix_missing_locations(d)
+                else:
+                    return None
+            return self.eval(d, Env(None, c.module, None))
+        return None
 
     def symbolic_args(self, fi, skip_self=True):
         """{parameter: value} for an analysis entry point: a symbol per parameter - except that an optional parameter
@@ -778,9 +854,10 @@ class Interp:
         k = nf.key(lev.nf)
         old = arr.rows.get(k)
         ncol = arr.shape[1]
+        init = nf.const(0) if arr.creator in ("zeros", "zeros_like") else nf.ONE if arr.creator in ("ones", "ones_like") else nf.sym("<uninitialised>")
         if _is_slice(col):
             lo, hi = _slice_bounds(col)
-            if lo is False or hi is not None or (lo or 0) < 0 or (lo or 0) > 4:
+            if lo is False or hi is False or (lo or 0) < 0 or (lo or 0) > 4 or (hi is not None and not -4 <= hi <= -1):
                 arr.rows.pop(k, None)
                 return
             lo = lo or 0
@@ -796,13 +873,16 @@ class Interp:
                 if old is not None:
                     new.over[nf.key(pj)] = (pj, old.at(pj))
                 else:
-                    new.over[nf.key(pj)] = (pj, nf.sym("<uninitialised>"))
+                    new.over[nf.key(pj)] = (pj, init)
+            for j in range(hi or 0, 0):  # positions after the slice (arr[r, lo:-m]) keep what was there
+                pj = nf.add(ncol, nf.const(j))
+                new.over[nf.key(pj)] = (pj, old.at(pj) if old is not None else init)
             arr.rows[k] = new
             return
         if isinstance(col, Num) and nf.as_int(col.nf) is not None:
             j = nf.as_int(col.nf)
             if old is None:
-                old = Vec(nf.sym("<uninitialised>"), ncol, {})
+                old = Vec(init, ncol, {})
             pos = old.norm_pos(j)
             old.over[nf.key(pos)] = (pos, self.to_nf(v))
             arr.rows[k] = old
@@ -1286,6 +1366,9 @@ class Interp:
                     return self.eval(c.class_attrs[attr], Env(None, c.module, None))
             if attr == "__dict__":
                 return ExtObj("__dict__", {"of": base}, node)
+            dv = self._new_field_default(base.cls, attr)
+            if dv is not None:
+                return dv
             return sym_num(f"{base.name}.{attr}")
         if isinstance(base, SuperV):
             m = base.inst.cls.lookup_after(base.cls, attr) if isinstance(base.inst, Inst) else None
@@ -1737,6 +1820,11 @@ class Interp:
                 return GenV(fi, bound, self_val, callee.env, callee.owner or fi.cls)
             if is_opaque:
                 names = [p for p in fi.params + fi.kwonly if p in bound]
+                extras = self._new_optional(fi, names)
+                if extras and self._explicit_equals_default(fi, bound, extras, self_val):
+                    # a new optional parameter handed a value with which the callee computes what it computes
+                    # without it (decided by interpreting the callee both ways): the call is the pinned call
+                    names = [p for p in names if p not in extras]
                 parts = [self.to_nf(bound[p]) for p in names]
                 if self_val is not None and isinstance(self_val, (Inst, ExtObj, Num)):
                     parts = [self.to_nf(self_val)] + parts
